@@ -146,8 +146,6 @@ def measure(cell, seed, npts):
             rng = c.rng_for(seed, LAW, cell, k)
             _, b = _bs(cell, rng)
             bl = b[1:4]
-            if cell["bsrc"] == 0 and k == 0:
-                bl = [1.0, 10.0, 1.0]  # fixed witness among the random positive b's
             rs = [complex(r) for r in as4.roots(bl)]
             if clause == "root":
                 res = max(
@@ -224,3 +222,24 @@ def measure(cell, seed, npts):
             res = abs(de - rhs) / abs(rhs)
         worst = c.worse(worst, res)
     return {"dec": c.decades(worst), "raw": worst, "resolved": True}
+
+
+def diagnose_generic_roots(chk):
+    """Diagnostic only (not part of the property): roots() outside the physical b's."""
+    import warnings
+
+    from eko.kernels import as4_evolution_integrals as as4
+
+    with warnings.catch_warnings(), np.errstate(all="ignore"):
+        warnings.simplefilter("ignore")
+        rs = [complex(r) for r in as4.roots([1.0, 10.0, 1.0])]
+        if not all(np.isfinite(r) for r in rs):
+            chk.diag("DIAG roots([1,10,1]) is NaN: the Cardano branch of as4_evolution_integrals.roots "
+                     "is only valid for 3*b1*b3 > b2^2 (true for nf 0..6); unphysical b's are outside C13")
+        for nf in (1, 2):
+            bv = c.beta_vec_indep(4, nf)
+            bl = [x / bv[0] for x in bv[1:]]
+            rs = [complex(r) for r in as4.roots(bl)]
+            res = max(abs(1 + bl[0] * r + bl[1] * r**2 + bl[2] * r**3) for r in rs)
+            if not res < 1e-10:
+                chk.diag(f"DIAG roots for nf={nf}: residual {res}")
